@@ -38,6 +38,8 @@ type CopyParams struct {
 	// Second (C03): after a first call that a fault made fail, the same process makes another,
 	// fault-free call from this other node with Depth 1 into a fresh destination
 	Second *int `json:"second,omitempty"`
+	// KeepFinder (C02, with a filter): see copyEnv.keptFinder
+	KeepFinder bool `json:"keep_finder,omitempty"`
 	// SrcByDigest (Copy): the source reference is the root's digest string, not a tag name
 	SrcByDigest bool           `json:"src_by_digest,omitempty"`
 	DstRef      string         `json:"dst_ref,omitempty"`
@@ -250,6 +252,12 @@ func (p *copyProp) Gen(r *Rand, tier string, idx int) any {
 		}
 	case "C02":
 		cp.API = pick(r, []string{"Copy", "CopyGraph", "ExtendedCopyGraph"})
+		if cp.API == "ExtendedCopyGraph" && !remote && r.Chance(0.3) {
+			// a filter whose lookups read the source; the retry runs with the finder it installed
+			cp.FilterAnnK = pick(r, annKeys)
+			cp.FilterAnnRe = pick(r, []string{"", "v1", "^beta", "."})
+			cp.KeepFinder = true
+		}
 		cp.NFaults = r.Range(1, 3)
 		for i := 0; i < cp.NFaults*2; i++ {
 			cp.FaultPicks = append(cp.FaultPicks, r.U64())
@@ -607,6 +615,10 @@ type copyEnv struct {
 	g        *Graph
 	cp       *CopyParams
 	src, dst *builtStore
+	// keptFinder (CopyParams.KeepFinder): the FindPredecessors the filters of the first execution
+	// installed; later executions on this environment - the retry of C02 - use the same one, as a
+	// caller does who builds its options once
+	keptFinder func(ctx context.Context, src content.ReadOnlyGraphStorage, desc ocispec.Descriptor) ([]ocispec.Descriptor, error)
 }
 
 func platformMatch(have, want string) bool {
@@ -816,21 +828,34 @@ func (env *copyEnv) exec2(rc *RunCtx, faults []FaultSpec, checks func(m *Monitor
 			eo := oras.ExtendedCopyGraphOptions{CopyGraphOptions: gopts, Depth: cp.Depth}
 			if cp.UserFinder {
 				eo.FindPredecessors = func(ctx context.Context, s content.ReadOnlyGraphStorage, d ocispec.Descriptor) ([]ocispec.Descriptor, error) {
-					if err := mon.callback("FindPredecessors", g.Lookup(d)); err != nil {
+					n := g.Lookup(d)
+					if err := mon.callback("FindPredecessors", n); err != nil {
+						if n%2 == 1 {
+							// a finder that had collected a part of its answer when it failed
+							ps, _ := s.Predecessors(ctx, d)
+							return ps, err
+						}
 						return nil, err
 					}
 					return s.Predecessors(ctx, d)
 				}
 			}
-			if cp.FilterAT != "" {
-				eo.FilterArtifactType(regexp.MustCompile(cp.FilterAT))
-			}
-			if cp.FilterAnnK != "" {
-				var re *regexp.Regexp
-				if cp.FilterAnnRe != "" {
-					re = regexp.MustCompile(cp.FilterAnnRe)
+			if cp.KeepFinder && env.keptFinder != nil && !scratch {
+				eo.FindPredecessors = env.keptFinder
+			} else {
+				if cp.FilterAT != "" {
+					eo.FilterArtifactType(regexp.MustCompile(cp.FilterAT))
 				}
-				eo.FilterAnnotation(cp.FilterAnnK, re)
+				if cp.FilterAnnK != "" {
+					var re *regexp.Regexp
+					if cp.FilterAnnRe != "" {
+						re = regexp.MustCompile(cp.FilterAnnRe)
+					}
+					eo.FilterAnnotation(cp.FilterAnnK, re)
+				}
+				if cp.KeepFinder && !scratch {
+					env.keptFinder = eo.FindPredecessors
+				}
 			}
 			if cp.API == "ExtendedCopy" {
 				ex.desc, ex.err = oras.ExtendedCopy(ctx, src, cp.SrcRef, dst, cp.DstRef, oras.ExtendedCopyOptions{ExtendedCopyGraphOptions: eo})
@@ -1121,7 +1146,15 @@ func (p *copyProp) runInBubble(rc *RunCtx, sc *Scenario, cp *CopyParams, g *Grap
 			if cp.DstRef != "" {
 				cp2.SrcRef, cp2.DstRef = cp.DstRef, ""
 			}
-			env2 := &copyEnv{g: g, cp: &cp2, src: env.dst, dst: second}
+			src2 := env.dst
+			if env.dst.kind == "oci" && env.dst.dir != "" {
+				// another process reads the layout: what the concurrent writers left in index.json counts
+				if s2, err := oci.New(env.dst.dir); err == nil {
+					src2 = &builtStore{kind: "oci", target: s2, close: func() {}, dir: env.dst.dir}
+					info.Probes["chained_second_copy_from_reopened_layout"]++
+				}
+			}
+			env2 := &copyEnv{g: g, cp: &cp2, src: src2, dst: second}
 			info.Probes["chained_second_copy_from_first_destination"]++
 			return p.judgeCopyOnce(rc, env2, info, nil, map[int]bool{}, account, outcomeCheck)
 		}
